@@ -30,7 +30,9 @@ void *nondet_ptr(void);
 #else
 #define REACH(c, msg) __CPROVER_assert(!(c), "reach: " msg)
 #endif
-#define REACHF(c, msg) __CPROVER_assert(!(c), "reach: " msg)
+/* optional witness: recorded in evidence, never warned about (e.g. "the fault was injected" in a
+ * fault-injection query whose index lies beyond the allocations the scenario performs) */
+#define REACHF(c, msg) __CPROVER_assert(!(c), "reach-opt: " msg)
 /* a bound of the encoding was exceeded: reported as a failed property "bound: ...", never a pass */
 #define VF_BOUND(c, msg) do { __CPROVER_assert((c), "bound: " msg); __CPROVER_assume(c); } while (0)
 
